@@ -64,7 +64,7 @@ def _rle(amp, w):
 
 
 # ---- hand-over forms (audit 9.7): how the three numbers, the sampling rate and the signal reach the object ----
-NFORMS = 7
+NFORMS = 8
 FS = [1, 2, 0.5, 30000, 2500.0, np.float64(1000.0)]
 SA_LIM = 300000        # slice_array is exercised on a real signal up to this length
 
@@ -84,6 +84,11 @@ def construct(ns, w, ov, form=0):
         return WindowGenerator(ns=np.float64(ns), nswin=w, overlap=np.float64(ov))
     if form == 6:
         return WindowGenerator(np.intp(ns), w, np.int32(ov))
+    if form == 7:       # unsigned lengths (sizes read from headers, len() of arrays held as unsigned): ns - nswin must not wrap
+        ut = [np.uint16, np.uint32, np.uint64, np.uint8][(ns + w) % 4]
+        if max(ns, w, ov) < np.iinfo(ut).max:
+            return WindowGenerator(ut(ns), ut(w), ut(ov))
+        return WindowGenerator(np.uint64(ns), np.uint64(w), np.uint64(ov))
     return WindowGenerator(ns, w, ov)
 
 
